@@ -41,7 +41,8 @@ class Ctx:
         self.seed = seed
         self.t0 = time.time()
         self.scratch = tempfile.mkdtemp(prefix="verif-%s-" % pid)
-        atexit.register(lambda: shutil.rmtree(self.scratch, ignore_errors=True))
+        if not os.environ.get("VERIF_KEEP_SCRATCH"):     # (debugging aid: keep the scratch directory of the run)
+            atexit.register(lambda: shutil.rmtree(self.scratch, ignore_errors=True))
         self.violations = []      # (sig, detail, replay_path)
         self.known_hits = {}      # sig -> (desc, count)
         self.cov = dict(states=0, transitions=0, traces_validated_against_impl=0,
